@@ -86,6 +86,8 @@ def printer_coverage(check: Check, repo: Repo, model: AstModel) -> None:
         params = [a.arg for a in m.args.posonlyargs + m.args.args]
         is_static = any(unparse(d) == "staticmethod" for d in m.decorator_list)
         pname = params[0] if is_static else (params[1] if len(params) > 1 else None)
+        if pname:
+            m = _see_through_helpers(repo, m, pname)
         used = _fields_reaching_return(m, pname) if pname else set()
         missing = fields - used
         check.ob(
@@ -95,6 +97,15 @@ def printer_coverage(check: Check, repo: Repo, model: AstModel) -> None:
             nontrivial=bool(fields),
         )
     check.floor(rule, 45, "leave_<kind> methods")
+
+
+def _see_through_helpers(repo: Repo, m: ast.AST, pname: str) -> ast.AST:
+    """The leave_<kind> method with single-return module-level helpers that receive the node inlined."""
+    from sa.tables import inline_single_return_helpers
+
+    if not any(isinstance(c, ast.Call) and isinstance(c.func, ast.Name) and any(isinstance(a, ast.Name) and a.id == pname for a in c.args) for c in ast.walk(m)):
+        return m
+    return inline_single_return_helpers(m, repo.mod("language.printer"), pname)
 
 
 def _fields_reaching_return(fn: ast.AST, pname: str) -> set[str]:
@@ -751,6 +762,7 @@ def printer_per_return(check: Check, repo: Repo, model: AstModel) -> None:
         pname = params[0] if is_static else (params[1] if len(params) > 1 else None)
         if pname is None:
             continue
+        m = _see_through_helpers(repo, m, pname)
         rets = [r for r in walk_body(m) if isinstance(r, ast.Return) and r.value is not None]
         if len(rets) > 1:
             n_multi += 1
@@ -1126,6 +1138,7 @@ def order_agree(check: Check, repo: Repo, model: AstModel, rule: str = "ORDER-AG
             pname = params[0] if is_static else (params[1] if len(params) > 1 else None)
             if pname is None:
                 continue
+            m = _see_through_helpers(repo, m, pname)
             for k, rorder in enumerate(printer_field_order(m, pname)):
                 bad = _order_conflicts(porder, rorder)
                 check.ob(rule, call, f"{where_} vs leave_{kind} return #{k + 1}", not bad,
@@ -1873,7 +1886,7 @@ def separator_table(check: Check, repo: Repo, rule: str = "SEPARATOR-TABLE") -> 
 
 def _facts_with_locals(facts) -> set[tuple[str, bool]]:
     """norm_facts plus every condition with its locals replaced by the expressions they are known to equal."""
-    import copy
+    from sa.tables import clone
 
     facts = list(facts)
     eqs = {f.name: f.expr for f in facts if f.kind == "eq" and f.name}
@@ -1881,13 +1894,13 @@ def _facts_with_locals(facts) -> set[tuple[str, bool]]:
 
     class Sub(ast.NodeTransformer):
         def visit_Name(self, n):  # noqa: N802
-            return copy.deepcopy(eqs[n.id]) if n.id in eqs and isinstance(n.ctx, ast.Load) else n
+            return clone(eqs[n.id]) if n.id in eqs and isinstance(n.ctx, ast.Load) else n
 
     from sa.guards import Fact
 
     for f in facts:
         if f.kind == "cond" and any(isinstance(x, ast.Name) and x.id in eqs for x in ast.walk(f.expr)):
-            e = ast.fix_missing_locations(Sub().visit(copy.deepcopy(f.expr)))
+            e = ast.fix_missing_locations(Sub().visit(clone(f.expr)))
             nf = _norm_fact(Fact("cond", e, f.pol))
             if nf:
                 out.add(nf)
@@ -2182,3 +2195,33 @@ def lexer_ascii_classes(check: Check, repo: Repo, rule: str = "LEXER-ASCII") -> 
                          f"uses {sorted(set(cats))} without re.ASCII: matches non-ASCII letters/digits/blanks"))
     if n == 0:
         raise AnalysisError("LEXER-ASCII: no pattern found in the lexer modules (block_string's line splitter expected)")
+
+
+TEXT_LEAVES = ("name", "int_value", "float_value", "enum_value")
+
+
+def leaf_text_verbatim(check: Check, repo: Repo, rule: str = "LEAF-VERBATIM") -> None:
+    check.rule(
+        rule,
+        "the nodes whose `value` is the token's own text (Name, IntValue, FloatValue, EnumValue) are printed by "
+        "returning that text as it is: leave_name / leave_int_value / leave_float_value / leave_enum_value return "
+        "`node.value` itself (through a local at most), with no conversion applied. The lexer keeps the spelling of a "
+        "number (`-0`, `1e5`, `1E+5`), so re-spelling it on print - str(int(value)) turns `-0` into `0` - yields a tree "
+        "that differs from the one parsed, and int() refuses numerals of more than 4300 digits that parse fine",
+    )
+    pcls = repo.cls("language.printer", "PrintAstVisitor")
+    methods = {s.name: s for s in pcls.body if isinstance(s, ast.FunctionDef)}
+    for kind in TEXT_LEAVES:
+        m = methods.get(f"leave_{kind}")
+        if m is None:
+            raise AnalysisError(f"PrintAstVisitor.leave_{kind} not found")
+        p = m.args.args[0].arg
+        for r in [x for x in walk_body(m) if isinstance(x, ast.Return)]:
+            v = r.value
+            if isinstance(v, ast.Name):
+                defs = [s.value for s in walk_body(m) if isinstance(s, ast.Assign) and any(isinstance(t, ast.Name) and t.id == v.id for t in s.targets)]
+                if len(defs) == 1:
+                    v = defs[0]
+            ok = v is not None and unparse(v) == f"{p}.value"
+            check.ob(rule, r, f"leave_{kind}: return {unparse(r.value)[:40] if r.value is not None else None}", ok,
+                     "the token text itself" if ok else f"the text is rewritten (`{unparse(v)[:50] if v is not None else None}`): the printed numeral / name is not the one that was parsed")
